@@ -283,7 +283,10 @@ def coverage_audit(runmod, prop, tier, seed, st, jobs, nreq=150):
         cfg = core.Cfg(cname)
         rng = random.Random(core.h64('%d/%s/cov/%s' % (seed, prop.PROP, cname)))
         reqs = []
+        mf = getattr(prop, 'mode_filter', None)
         for g, a in prop.requests(cfg, rng, nreq, tier, rng.randrange(1 << 20), 1 << 20, {'exhaustive': []}):
+            if mf and not mf(cfg, g, 'dev'):
+                continue    # release-only request groups (2^24-draw histograms, word-space probes, > 512 MiB fills) are not for the instrumented debug build
             reqs.append(runmod.encode_req(prop, cfg, g, a))
             if len(reqs) >= nreq:
                 break
